@@ -45,8 +45,8 @@ Definition judge (c : case) : bool * bool * Z :=
        | _, _ => false
        end, match parse_step p s e with DUnmodelled => 1000 | _ => 0 end)
   | CCmd lo hi sp ep sn stp obs ex =>
-      (* the resolved range is handed to the engine unchanged; a log query asks each container for the range truncated to whole
-         seconds.  The clock is read somewhere between lo and hi, and the resolved bounds are monotone in it. *)
+      (* the resolved range is handed to the engine unchanged; a log query asks each container for the range in whole
+         seconds (start rounded down, end rounded up: D35).  The clock is read somewhere between lo and hi, and the resolved bounds are monotone in it. *)
       let r1 := parse_time_range TimeFmt.parse_ts lo sp ep sn in
       let r2 := parse_time_range TimeFmt.parse_ts hi sp ep sn in
       (match r1, r2 with
@@ -54,7 +54,7 @@ Definition judge (c : case) : bool * bool * Z :=
            match parse_step stp s1 e1, parse_step stp s2 e2 with
            | DOk _, DOk _ =>
                match obs with
-               | Some (a, b) => (s1 / 1000000000 <=? a) && (a <=? s2 / 1000000000) && (e1 / 1000000000 <=? b) && (b <=? e2 / 1000000000)
+               | Some (a, b) => (s1 / 1000000000 <=? a) && (a <=? s2 / 1000000000) && ((e1 + 999999999) / 1000000000 <=? b) && (b <=? (e2 + 999999999) / 1000000000)
                | None => false
                end
            | DErr, DErr => match obs with None => true | Some _ => false end
